@@ -17,10 +17,10 @@ Definition map_files (g : dfile -> dfile) (d : disk) : disk :=
 
 Definition dirfix_file (f : dfile) : dfile :=
   {| df_ents := df_ents f; df_end := df_end f; df_seal := df_seal f; df_pend := df_pend f;
-     df_dir := true; df_size := df_size f |}.
+     df_dir := true; df_size := 0 |}.
 Definition sh_file (f : dfile) : dfile :=
   {| df_ents := df_ents f; df_end := df_end f; df_seal := df_seal f; df_pend := None;
-     df_dir := true; df_size := df_size f |}.
+     df_dir := true; df_size := 0 |}.
 
 Definition dirfix (d : disk) : disk := map_files dirfix_file d.
 Definition sh (d : disk) : disk := map_files sh_file d.
@@ -92,11 +92,29 @@ Proof. unfold frel, sh_file; cbn. auto 10. Qed.
 Lemma frel_dirfix f : frel f (dirfix_file f).
 Proof. unfold frel, dirfix_file; cbn. auto 10. Qed.
 
-(* pending batches only in file [o] *)
-Definition stale_ok (o : option fname) (d : disk) : Prop :=
-  forall n f, lookup n (dk_files d) = Some f -> df_pend f <> None -> o = Some n.
+(* pending batches only in the files named in [X] *)
+Definition stale_ok (X : list fname) (d : disk) : Prop :=
+  forall n f, lookup n (dk_files d) = Some f -> df_pend f <> None -> In n X.
 
-Lemma drel_sh o d : NoDup (map fst (dk_files d)) -> stale_ok o d -> drel o d (sh d).
+(* the names of the files with a pending batch *)
+Definition stale_names (d : disk) : list fname :=
+  map fst (filter (fun nf => match df_pend (snd nf) with Some _ => true | None => false end) (dk_files d)).
+
+Lemma stale_names_ok d : stale_ok (stale_names d) d.
+Proof.
+  intros n f Hl Hp. unfold stale_names. apply in_map_iff. exists (n, f). split; [reflexivity|].
+  apply filter_In. split; [apply lookup_In; exact Hl|]. cbn. destruct (df_pend f); congruence.
+Qed.
+
+Lemma stale_names_in d n : NoDup (map fst (dk_files d)) -> In n (stale_names d) ->
+  exists f p, lookup n (dk_files d) = Some f /\ df_pend f = Some p.
+Proof.
+  intros ND H. unfold stale_names in H. apply in_map_iff in H. destruct H as ([m f] & <- & H).
+  apply filter_In in H. destruct H as (Hin & Hp). cbn in *. destruct (df_pend f) as [p|] eqn:E; [|discriminate].
+  exists f, p. split; [apply In_lookup; assumption|exact E].
+Qed.
+
+Lemma drel_sh X d : NoDup (map fst (dk_files d)) -> stale_ok X d -> drel X d (sh d).
 Proof.
   intros ND Hs. split; [apply lrel_map_files; apply frel_sh|].
   split; [reflexivity|]. split; [reflexivity|]. split; [reflexivity|].
@@ -105,7 +123,7 @@ Proof.
   destruct (df_pend f) eqn:E; [|reflexivity]. exfalso. apply Hne. apply (Hs n f A). congruence.
 Qed.
 
-Lemma drel_dirfix d : NoDup (map fst (dk_files d)) -> drel None d (dirfix d).
+Lemma drel_dirfix d : NoDup (map fst (dk_files d)) -> drel [] d (dirfix d).
 Proof.
   intros ND. split; [apply lrel_map_files; apply frel_dirfix|].
   split; [reflexivity|]. split; [reflexivity|]. split; [reflexivity|].
@@ -115,16 +133,16 @@ Qed.
 
 (* related disks have the same normal forms *)
 Lemma sh_file_rel f g : frel f g -> sh_file f = sh_file g.
-Proof. intros (A & B & C & D & _). unfold sh_file. rewrite A, B, C, D. reflexivity. Qed.
+Proof. intros (A & B & C & _). unfold sh_file. rewrite A, B, C. reflexivity. Qed.
 
-Lemma drel_sh_eq o d dc : drel o d dc -> sh d = sh dc.
+Lemma drel_sh_eq X d dc : drel X d dc -> sh d = sh dc.
 Proof.
   intros (H1 & H2 & H3 & H4 & _). unfold sh, map_files. rewrite H2, H3, H4. f_equal.
   induction H1 as [|[n f] [m g] l lc (E & Hf) _ IH]; [reflexivity|]. cbn [map fst snd] in *. subst m.
   rewrite (sh_file_rel f g Hf), IH. reflexivity.
 Qed.
 
-Lemma drel_strict_in d dc : drel None d dc ->
+Lemma drel_strict_in d dc : drel [] d dc ->
   Forall2 (fun a b => fst a = fst b /\ frel (snd a) (snd b) /\ df_pend (snd a) = df_pend (snd b)) (dk_files d) (dk_files dc).
 Proof.
   intros (H1 & _ & _ & _ & ND & H6).
@@ -132,7 +150,7 @@ Proof.
   revert ND ND' H6. induction H1 as [|[n f] [m g] l lc (E & Hf) Hr IH]; intros ND ND' H6; [constructor|].
   cbn [fst snd map] in *. subst m. inversion ND as [|? ? Hn NDr]; inversion ND' as [|? ? Hn' NDr']; subst.
   constructor.
-  - split; [reflexivity|]. split; [exact Hf|]. apply (H6 n f g); cbn [lookup]; try rewrite fname_eqb_refl; auto. discriminate.
+  - split; [reflexivity|]. split; [exact Hf|]. apply (H6 n f g); cbn [lookup]; try rewrite fname_eqb_refl; auto.
   - apply IH; auto. intros k f' g' A B K. apply (H6 k f' g'); auto; cbn [lookup].
     + destruct (fname_eqb k n) eqn:E; [|exact A]. apply fname_eqb_eq in E. subst k. exfalso. apply Hn'.
       apply lookup_some_in in A. exact A.
@@ -140,12 +158,12 @@ Proof.
       apply lookup_some_in in B. exact B.
 Qed.
 
-Lemma drel_dirfix_eq d dc : drel None d dc -> dirfix d = dirfix dc.
+Lemma drel_dirfix_eq d dc : drel [] d dc -> dirfix d = dirfix dc.
 Proof.
   intros H. pose proof (drel_strict_in d dc H) as HF. destruct H as (_ & H2 & H3 & H4 & _).
   unfold dirfix, map_files. rewrite H2, H3, H4. f_equal.
-  induction HF as [|[n f] [m g] l lc (E & (A & B & C & D & _) & P) _ IH]; [reflexivity|]. cbn [map fst snd] in *. subst m.
-  rewrite IH. unfold dirfix_file. rewrite A, B, C, D, P. reflexivity.
+  induction HF as [|[n f] [m g] l lc (E & (A & B & C & _) & P) _ IH]; [reflexivity|]. cbn [map fst snd] in *. subst m.
+  rewrite IH. unfold dirfix_file. rewrite A, B, C, P. reflexivity.
 Qed.
 
 (* ------------------------------------------------------------------ *)
@@ -211,19 +229,19 @@ Proof.
 Qed.
 
 (* reading a disk related by the strict relation *)
-Lemma file_ents_drel d dc n : drel None d dc -> file_ents n d = file_ents n dc.
+Lemma file_ents_drel d dc n : drel [] d dc -> file_ents n d = file_ents n dc.
 Proof.
   intros H. unfold file_ents. pose proof (drel_cur d dc n H) as K.
   destruct (lookup n (dk_files d)), (lookup n (dk_files dc)); try destruct K; auto.
 Qed.
 
-Lemma sp_of_drel d dc : drel None d dc -> sp_of d = sp_of dc.
+Lemma sp_of_drel d dc : drel [] d dc -> sp_of d = sp_of dc.
 Proof.
   intros H. pose proof H as (_ & Hm & Hs & _). unfold sp_of. rewrite Hs. f_equal.
   apply dread_ext; [exact Hm|]. intros ps s _ _. apply file_ents_drel. exact H.
 Qed.
 
-Lemma abs_drel w d dc : drel None d dc -> abs w d = abs w dc.
+Lemma abs_drel w d dc : drel [] d dc -> abs w d = abs w dc.
 Proof.
   intros H. rewrite !abs_is_gen. apply abs_gen_ext. intros s _. apply file_ents_drel. exact H.
 Qed.
@@ -288,10 +306,18 @@ Definition stale_batch (c : cfg) (t : seginfo) (f : dfile) (p : pbatch) (defer :
      exists l0 r, pb_ents p = l0 :: r /\ l_index l0 = si_base t + llen (df_ents f) /\
                   consecutive (l_index l0) (pb_ents p) = true).
 
+(* a name no segment of the metadata carries *)
+Definition unlisted (d : disk) (n : fname) : Prop :=
+  forall ps s, dk_meta d = Some ps -> In s (ps_segs ps) -> name_of s <> n.
+
+(* a pending batch sits in the tail file (and is then well-formed) or in a file the
+   metadata does not list (left behind by a deletion that failed) *)
 Definition stale_tail_ok (c : cfg) (w : wal) (d : disk) (defer : list sop) : Prop :=
-  no_pend d \/
-  exists t f p, tail_info (st_segs w) = Some t /\ lookup (name_of t) (dk_files d) = Some f /\
-                df_pend f = Some p /\ stale_ok (Some (name_of t)) d /\ stale_batch c t f p defer.
+  forall n f p, lookup n (dk_files d) = Some f -> df_pend f = Some p ->
+    (exists t, tail_info (st_segs w) = Some t /\ n = name_of t /\ stale_batch c t f p defer) \/ unlisted d n.
+
+Definition stale_unlisted (d : disk) : Prop :=
+  forall n f p, lookup n (dk_files d) = Some f -> df_pend f = Some p -> unlisted d n.
 
 (* a running WAL that accepts writes *)
 Definition Live (c : cfg) (nb : N) (w : wal) (d : disk) (defer : list sop) : Prop :=
@@ -300,13 +326,17 @@ Definition Live (c : cfg) (nb : N) (w : wal) (d : disk) (defer : list sop) : Pro
 (* the tail is sealed but no rotation is pending (a rotation or tail-truncation commit failed) *)
 Definition Seal (c : cfg) (nb : N) (w : wal) (d : disk) : Prop :=
   exists tw, st_tail w = Some tw /\ 0 < ws_index_start tw /\ st_rotate w = None /\
-             LInv c nb (set_rot w (Some (ws_index_start tw))) (sh d) /\ no_pend d.
+             LInv c nb (set_rot w (Some (ws_index_start tw))) (sh d) /\ stale_unlisted d.
 
-(* readers are served from in-memory state [w] that agrees with a clean state *)
+(* readers are served from in-memory state [w] that agrees with a clean state: every file
+   of the clean disk is the (normalised) file of that name on the real disk, and no
+   pending batch sits in a file of a sealed segment of [w] *)
 Definition RV (c : cfg) (nb : N) (w : wal) (d : disk) (nom : spst) : Prop :=
-  exists wc dc o, LInv c nb wc dc /\ sp_of dc = nom /\ st_segs w = st_segs wc /\ st_tail w = st_tail wc /\
-    dk_files dc = dk_files (sh d) /\ dk_stable dc = dk_stable d /\ NoDup (map fst (dk_files d)) /\
-    stale_ok o d /\ (forall n, o = Some n -> exists t, tail_info (st_segs w) = Some t /\ name_of t = n).
+  exists wc dc, LInv c nb wc dc /\ sp_of dc = nom /\ st_segs w = st_segs wc /\ st_tail w = st_tail wc /\
+    (forall n, lookup n (dk_files dc) <> None -> lookup n (dk_files (sh d)) = lookup n (dk_files dc)) /\
+    dk_stable dc = dk_stable d /\ NoDup (map fst (dk_files d)) /\
+    (forall n f s, lookup n (dk_files d) = Some f -> df_pend f <> None -> In s (st_segs w) -> name_of s = n ->
+                   tail_info (st_segs w) = Some s).
 
 Definition Mode (c : cfg) (nb : N) (w : wal) (d : disk) (nom : spst) (defer : list sop) : Prop :=
   (st_closed w = true /\ st_rotate w = None) \/
